@@ -289,8 +289,10 @@ def corr_selector(hbin, wd, tier, seed):
 
 
 def check_C02(tier, seed, replay=None):
-    return ref_family_check("C02", tier, seed, [("selector", 3000), ("selpair", 1500)],
-                            [("selector", 60000), ("selpair", 30000)], corr=corr_selector)
+    # the hints oracle (a storage that returns only what each Select asked for) on selector pairs:
+    # a selector must ask for its own range even when the same matchers occur twice in a query
+    return ref_family_check("C02", tier, seed, [("ref", "selector", 3000), ("ref", "selpair", 1500), ("hints", "selpair", 800)],
+                            [("ref", "selector", 60000), ("ref", "selpair", 30000), ("hints", "selpair", 20000)], corr=corr_selector)
 
 
 def corr_range(hbin, wd, tier, seed):
@@ -354,8 +356,8 @@ def _corr_generic(cmd, prop, model_text, per_quick, per_thorough, shards_quick=8
 
 def check_C16(tier, seed, replay=None):
     corr = _corr_generic("hintcases", "C16", "Hints.eng_selects vs the selects recorded by the instrumented storage (no optimizers)", 150, 1500)
-    return ref_family_check("C16", tier, seed, [("hints", "", 1500), ("hints", "range", 500), ("hints", "func", 500)],
-                            [("hints", "", 30000), ("hints", "range", 10000), ("hints", "func", 10000), ("hints", "deep", 10000)], corr=corr)
+    return ref_family_check("C16", tier, seed, [("hints", "", 1500), ("hints", "range", 500), ("hints", "func", 500), ("hints", "pairs", 1200)],
+                            [("hints", "", 30000), ("hints", "range", 10000), ("hints", "func", 10000), ("hints", "deep", 10000), ("hints", "pairs", 40000)], corr=corr)
 
 
 def check_C09(tier, seed, replay=None):
